@@ -138,6 +138,11 @@ def execute(acc, case):
 
 def run_batch(b):
     acc = harness.Acc()
+    if b.get("real"):
+        # the application layer as shipped: worker process, Manager queues, real loopback (bvm/realapp.py)
+        from bvm import realnet
+        realnet.run_cases(acc, b["real"])
+        return acc
     for case in b["cases"]:
         execute(acc, case)
     return acc
@@ -163,11 +168,13 @@ def main(tier, seed):
     rng.shuffle(cases)
     nb = 16 if q else 64
     batches = [{"cases": cases[i::nb]} for i in range(nb)]
+    for i in range(3 if q else 16):
+        batches.append({"real": [{"kind": "app", "seed": seed * 389 + i * 23 + j, "judge": "callers"} for j in range(1 if q else 4)]})
     acc = harness.run_workers("checks.c14_waiting_sender", "run_batch", batches, 3000)
     return harness.finish(PROP, tier, seed, "exploration", acc, RULE,
                           ["in-process workers (fake manager); the multi-process deployment of Bromelia.run() is out of reach",
                            "bounded progress: every caller returns within 30 virtual seconds after its answer was dispatched; a deadlock found by the scheduler is definitive"],
-                          t0, require_counters=("executions", "callers_matched", "steps"))
+                          t0, require_counters=("executions", "callers_matched", "steps", "real_loopback_ok"))
 
 
 def replay(w):
